@@ -1,5 +1,6 @@
 import ZvbiModel.Hamm.Model
 import ZvbiModel.Generated.TtxLayout
+import ZvbiModel.Generated.CacheLayout
 /-!
 # Model of the Teletext packet decoder: src/packet.c `vbi_decode_teletext` and what it dispatches to
 
@@ -437,15 +438,28 @@ def Page.truncate (p : Page) : Page :=
     else { p with ext := Ext.zero, enh := List.replicate ENH_SIZE Triplet.zero }
   else p
 
-/-- `_vbi_cache_put_page`: returns the new chain, or `none` when the page is refused -/
-def cachePut (c : List Page) (pageType : Nat) (p : Page) : Option (List Page) :=
+/-- `_vbi_cache_put_page` of source shape `fix`: returns the new chain, or `none` when the page is refused.
+    `fix = false`: the source as it was when finding F17 was made - the version the look-up finds is replaced.
+    `fix = true`: with fixes/C10-put-replaces-all-versions.diff - when the key class is "one version" (`0 == subno_mask`)
+    and a version was found, `FOR_ALL_NODES ... if (cp2 != old_cp && cp2->pgno == cp->pgno && cp2->network == cn)
+    delete_page (ca, cp2)` removes every other cached version of the page number as well (the list holds the pages of
+    one network; `c1.erase old` = the chain without the node found, the filter = that loop). -/
+def cachePutF (fix : Bool) (c : List Page) (pageType : Nat) (p : Page) : Option (List Page) :=
   if p.pgno &&& 0xFF == 0xFF then none
   else
     let (subno, mask) := putKey pageType p.pgno p.subno
     let c' := match cacheFind c p.pgno (subno &&& mask) mask with
-      | some (old, c1) => c1.erase old
+      | some (old, c1) =>
+        if fix && mask == 0 then (c1.erase old).filter (fun q => q.pgno != p.pgno)
+        else c1.erase old
       | none => c
     some ({ p.truncate with subno := subno } :: c')
+
+/-- `_vbi_cache_put_page` of the CURRENT source: which of the two shapes /repo has is read from src/cache.c by
+    translate/gen_cache.py on every run (`Zvbi.Gen.Cache.putReplacesAllVersions`).  Every lemma about `cachePut` is
+    proved about `cachePutF fix` for an arbitrary `fix` and instantiated. -/
+def cachePut (c : List Page) (pageType : Nat) (p : Page) : Option (List Page) :=
+  cachePutF Zvbi.Gen.Cache.putReplacesAllVersions c pageType p
 
 def statIdx (pgno : Nat) : Option Nat :=
   if pgno ≥ 0x100 && pgno ≤ 0x8FF then some (pgno - 0x100) else none
